@@ -31,12 +31,22 @@ def generate(src, strip_comments, fn_body, header):
                          and re.search(r"cursor\s+as\s+usize", body)
                          and re.search(r"current_pos\s+as\s+u64", body)
                          and re.search(r"if\s+current_pos\s*>=\s*\w+\.len\(\)\s*\{\s*0\s*\}", body)))
-    if None in consts or len(set(consts)) != 1:
-        lines.append('def scanCfg : Ferrous.Scan.Cfg := extraction_failed "scan loop constants not recognised or not uniform: %s"' % (consts,))
+    # MATCH: on String::from_utf8_lossy text through pattern_matches(&str, &str), or on the bytes?
+    pm = re.search(r"fn\s+pattern_matches\s*\(\s*pattern\s*:\s*&\s*(str|\[u8\])\s*,\s*text\s*:\s*&\s*(str|\[u8\])\s*\)", text)
+    lossy = []
+    for fn in FNS:
+        body = fn_body(text, fn) or ""
+        if "pattern_matches(" not in body or pm is None or pm.group(1) != pm.group(2):
+            lossy.append(None)
+        else:
+            lossy.append(pm.group(1) == "str" and "from_utf8_lossy" in body)
+    if None in consts or len(set(consts)) != 1 or None in lossy or len(set(lossy)) != 1:
+        lines.append('def scanCfg : Ferrous.Scan.Cfg := extraction_failed "scan loop constants / MATCH call not recognised or not uniform: %s %s"' % (consts, lossy))
     else:
         d, c, f = consts[0]
-        lines.append("/-- `count == 0 -> %d`, `min(scan_count, %d)`, `examined < max_scan_count * %d` in scan/hscan/sscan/zscan. -/" % (d, c, f))
-        lines.append("def scanCfg : Ferrous.Scan.Cfg := ⟨%d, %d, %d⟩" % (d, c, f))
+        lines.append("/-- `count == 0 -> %d`, `min(scan_count, %d)`, `examined < max_scan_count * %d` in scan/hscan/sscan/zscan;" % (d, c, f))
+        lines.append("    MATCH %s. -/" % ("goes through `String::from_utf8_lossy` and `pattern_matches(&str, &str)`" if lossy[0] else "compares bytes (`pattern_matches(&[u8], &[u8])`)"))
+        lines.append("def scanCfg : Ferrous.Scan.Cfg := ⟨%d, %d, %d, %s⟩" % (d, c, f, "true" if lossy[0] else "false"))
     if None in rank:
         lines.append('def scanCursorIsRank : Bool := extraction_failed "scan/hscan/sscan/zscan not found"')
     else:
